@@ -310,7 +310,30 @@ pub fn gen_c08(c: &mut Ctx) {
             p!(c, "next {} {}", ty, ones.show());
         }
     }
-    // tables of different sizes (dynamic only)
+    // tables of different sizes (dynamic only): the size decides, whatever the words are
+    for n1 in 0..=8usize {
+        for n2 in 0..=8usize {
+            if n1 == n2 {
+                continue;
+            }
+            let lo = n1.min(n2);
+            // same low word in both, constants, and a numerically small table of the larger size
+            let w = c.rng.next() & mask_of(lo);
+            let mut a = Tab::zero(n1);
+            let mut b = Tab::zero(n2);
+            a.w[0] = w;
+            b.w[0] = w;
+            p!(c, "cmp D {} {}", a.show(), b.show());
+            p!(c, "eq D {} {}", a.show(), b.show());
+            let ones = Tab::from_fn(n1, |_| true);
+            let zero = Tab::zero(n2);
+            p!(c, "cmp D {} {}", ones.show(), zero.show());
+            p!(c, "eq D {} {}", zero.show(), Tab::zero(n1).show());
+            let mut small = Tab::zero(n2);
+            small.w[0] = 1;
+            p!(c, "cmp D {} {}", gen_dense(&mut c.rng, n1).show(), small.show());
+        }
+    }
     for _ in 0..reps {
         let n1 = c.rng.below(9);
         let n2 = c.rng.below(9);
@@ -642,6 +665,23 @@ fn hist_token(r: &mut Rng, n: usize, allow_canon: bool) -> String {
 }
 
 pub fn gen_c02(c: &mut Ctx) {
+    // values of different sizes never compare equal, whatever their blocks are
+    for n1 in 0..=7usize {
+        for n2 in 0..=7usize {
+            if n1 != n2 {
+                let lo = n1.min(n2);
+                let w = c.rng.next() & mask_of(lo);
+                let mut a = Tab::zero(n1);
+                let mut b = Tab::zero(n2);
+                a.w[0] = w;
+                b.w[0] = w;
+                p!(c, "cmp D {} {}", a.show(), b.show());
+                p!(c, "eq D {} {}", a.show(), b.show());
+                p!(c, "cmp D {} {}", Tab::zero(n1).show(), Tab::zero(n2).show());
+                p!(c, "eq D {} {}", Tab::zero(n1).show(), Tab::zero(n2).show());
+            }
+        }
+    }
     let per_n = if c.thorough { 120 } else { 24 };
     for n in 0..=12usize {
         for ty in types_for(n) {
